@@ -433,7 +433,7 @@ func c11fGuard(what string, fn func()) (msg string) {
 var c11fStart = time.Now()
 
 func c11fOverBudget() bool {
-	b := 90 * time.Second
+	b := 14 * time.Second // quick: ≈ 2× what the tier's 1500 cases need; bounds the driver's 5× wider search
 	if os.Getenv("VERIF_TIER") == "thorough" {
 		b = 780 * time.Second
 	}
